@@ -24,7 +24,21 @@ fn main() {
     let args: Vec<String> = std::env::args().collect();
     if args.len() < 2 {
         eprintln!("usage: rio-harness <property> [--seed N] [--tier quick|thorough] [--replay file]");
+        eprintln!("       rio-harness bulk03 --filters <spec> --alphabet <name|hex,hex,..> --len <n> --shard <i>/<k> [--ct type] [--cuts single|all|bytes] [--minlen m] [--random N --seed S]");
+        eprintln!("       rio-harness bulk16 --alphabet <name|hex,hex,..> --len <n> --shard <i>/<k> [--ctx tag] [--minlen m] [--random N --seed S]");
         std::process::exit(2);
+    }
+    if args[1] == "bulk03" {
+        // bulk feed for mlrun/bodyrun --check (see c03/bulk03.rs)
+        std::panic::set_hook(Box::new(|_| {}));
+        c03::bulk03::main(&args[2..]);
+        return;
+    }
+    if args[1] == "bulk16" {
+        // bulk feed for mlrun/tokrun --check (see c16/bulk16.rs); panics are observations here too
+        std::panic::set_hook(Box::new(|_| {}));
+        c16::bulk16::main(&args[2..]);
+        return;
     }
     let mut seed: u64 = 1;
     let mut tier = "quick".to_string();
